@@ -139,7 +139,13 @@ func determinism(args []string) {
 		kept = append(kept, c)
 		// unrelated searches before it, on the same engine
 		_ = i
-		if setup(ctx, e, gameT{start: "startpos", moves: []string{"e2e4", "e7e5", "g1f3"}}) {
+		// an unrelated game of the same length (same ply, same side to move), so that anything the
+		// engine remembers "per ply" or "per side" from it would be wrongly reused
+		other := extend(r, gameT{start: "fen r1bqk1nr/pppp1ppp/2n5/2b1p3/2B1P3/5N2/PPPP1PPP/RNBQK2R w KQkq - 4 4"}, len(c.game.moves))
+		if strings.Contains(c.game.fenOf(), " b ") {
+			other = extend(r, gameT{start: "fen rnbqkb1r/pp2pppp/3p1n2/8/3NP3/2N5/PPP2PPP/R1BQKB1R b KQkq - 2 5"}, len(c.game.moves))
+		}
+		if setup(ctx, e, other) {
 			_, _ = analyze(ctx, e, 1)
 		}
 		run(e, c, "after-unrelated-search", true)
@@ -150,6 +156,24 @@ func determinism(args []string) {
 		// a new engine
 		e2, _ := ucih.Build(ctx, c.spec)
 		run(e2, c, "new-engine", true)
+		// a new engine whose FIRST search was an unrelated game of the same length
+		e4, _ := ucih.Build(ctx, c.spec)
+		if setup(ctx, e4, other) {
+			_, _ = analyze(ctx, e4, 1)
+		}
+		run(e4, c, "new-engine-after-unrelated-search", true)
+		// ... and the same through take-back: another move from the parent position searched first
+		if n := len(c.game.moves); n > 0 && c.spec.Noise == 0 {
+			e5, _ := ucih.Build(ctx, c.spec)
+			parent := gameT{start: c.game.start, moves: c.game.moves[:n-1]}
+			sib := extend(r, parent, 1)
+			if setup(ctx, e5, sib) {
+				_, _ = analyze(ctx, e5, 1)
+				if e5.TakeBack(ctx) == nil && e5.Move(ctx, c.game.moves[n-1]) == nil {
+					run(e5, c, "after-takeback-of-sibling", false)
+				}
+			}
+		}
 		// a different hash seed must not matter when noise is off (the seed also seeds the noise)
 		if c.spec.Noise == 0 {
 			s2 := c.spec
